@@ -1,5 +1,5 @@
 (** * C13 -- ill-formed programs are rejected with the matching error *)
-From QV Require Import Interp C13T.
+From QV Require Import Interp C13T C13T2.
 
 Theorem C13_reject : C13_reject_stmt.
 Proof. exact C13_reject_proof. Qed.
@@ -8,3 +8,7 @@ Print Assumptions C13_reject.
 Theorem C13_gate_rules : C13_gate_rules_stmt.
 Proof. exact C13_gate_rules_proof. Qed.
 Print Assumptions C13_gate_rules.
+
+Theorem C13_accept : C13_accept_stmt.
+Proof. exact C13_accept_proof. Qed.
+Print Assumptions C13_accept.
